@@ -1,4 +1,7 @@
 import CryoCat.Lemmas.C02_WriteOk
+import CryoCat.Lemmas.C02_NumWrite
+import CryoCat.Lemmas.C02_Crlf
+import CryoCat.Lemmas.C02_ComRead
 /-! C02 — property theorems: STAR files read back to the same blocks, columns, rows and values.
 Only theorems and non-vacuity examples; the proofs are in `Lemmas/C02*.lean`. The model
 (`Model/C02.lean`) is the one the driver executes; the layout grammar of the statement is
@@ -31,6 +34,20 @@ theorem writer_literals_documented :
     Gen.C02.labelNumbered = [['_'], [' ', '#'], ['\n']] ∧ Gen.C02.labelPlain = [['_'], ['\n']] ∧
     Gen.C02.specLine = [['\n'], ['\n', '\n']] ∧ Gen.C02.loopLine = ['l', 'o', 'o', 'p', '_', '\n'] ∧
     Gen.C02.stopgapExtra = ['\n'] ∧ Gen.C02.blockEnd = ['\n'] ∧ Gen.C02.labelStart = 1 := by decide
+
+/-- the `comments` argument of `Starfile.write` (`\n# <c>` per comment, then `\n`, before the specifier
+line), the value of a COMMENT token (stripped), `parse_newline_or_comments`, the order of the comment
+lists `Starfile.read` concatenates per block, its `data_id` branch, `get_specifier_id` and
+`get_frame_and_comments` are the documented ones -/
+theorem comments_and_selection_documented :
+    Gen.C02.commentLine = [['\n', '#', ' '], []] ∧ Gen.C02.commentsEnd = ['\n'] ∧
+    Gen.C02.commentValue = "line[index+1:].strip()" ∧
+    Gen.C02.commentsOrder = "specifier_comments+column_comments+rows_comments" ∧
+    Gen.C02.dataIdBranch = "ifdata_idisnotNone:;return(frames[data_id],specifiers[data_id],comments[data_id]);else:;return(frames,specifiers,comments)" ∧
+    Gen.C02.newlineOrComments = "comments=[];whileTrue:;comment_token=Token.check_then_consume(tokens,TokenType.COMMENT);ifcomment_tokenisnotNone:;comments.append(comment_token.value);elifnotToken.check_then_consume(tokens,TokenType.NEWLINE):;break;returncomments" ∧
+    Gen.C02.getSpecifierId = "ifspecifier_idinspeficiers:;returnspeficiers.index(specifier_id);else:;returnNone" ∧
+    Gen.C02.getFrameAndComments = "frames,specifiers,comments=Starfile.read(file_path);spec_id=Starfile.get_specifier_id(specifiers,specifier);ifspec_idisNone:;raiseValueError(f'Thereisnoentrywithspecifier{specifier}.');return(frames[spec_id],comments[spec_id])" :=
+  ⟨by decide, by decide, rfl, rfl, rfl, rfl, rfl, rfl⟩
 
 /-! ### reading -/
 
@@ -84,6 +101,193 @@ theorem written_text_is_laid_out (numberColumns : Bool) (bs : List Block) (hne :
     (docOf numberColumns bs).Ok ∧ (docOf numberColumns bs).text = printStar numberColumns bs :=
   ⟨docOf_ok numberColumns bs h he, docOf_text numberColumns bs hne⟩
 
+
+/-! ### numeric typing inside the model -/
+
+/-- **The recogniser is the grammar.** `isNumTok` — what the driver runs to type a column, the model of
+`pandas.to_numeric` on one cell — accepts exactly the tokens of the declarative grammar `NumTok`:
+`[+-]?(d+[.d*]|.d+)([eE][+-]?d+)?` or `[+-]?(inf|infinity)` in any letter case. -/
+theorem numeric_grammar (w : Word) : isNumTok w = true ↔ NumTok w := isNumTok_iff w
+
+/-- **Every cell the writer prints for a number is a number token, every text cell of the
+quantifier is not.** `str(n)` of any integer; `repr` of any finite float, laid out from *any*
+non-empty digit string and *any* decimal-point position (fixed form, `.0`, exponent form beyond 16 /
+below -4 digits, two-digit exponent); `inf`/`-inf`. Conversely a cell outside the grammar — in
+particular any word containing a character that no number contains — is never typed as a number. -/
+theorem writer_cells_numeric :
+    (∀ n : Int, isNumTok (cellText (.int n)) = true) ∧
+    (∀ (neg : Bool) (ds : Word) (decpt : Int), ds ≠ [] → AllDigits ds → isNumTok (cellText (.flt (.fin neg ds decpt))) = true) ∧
+    (∀ neg : Bool, isNumTok (cellText (.flt (.inf neg))) = true) ∧
+    (∀ w : Word, ¬ NumTok w → isNumTok w = false) ∧
+    (∀ (w : Word) (c : Char), c ∈ w → numChar c = false → isNumTok w = false) := by
+  refine ⟨fun n => (isNumTok_iff _).2 (Or.inl (intStr_dec n)),
+    fun neg ds decpt h1 h2 => (isNumTok_iff _).2 (Or.inl (floatRepr_dec neg ds decpt h1 h2)),
+    fun neg => (isNumTok_iff _).2 (Or.inr (infStr_inf neg)), ?_, ?_⟩
+  · intro w h
+    cases hb : isNumTok w with
+    | false => rfl
+    | true => exact absurd ((isNumTok_iff w).1 hb) h
+  · intro w c hc h
+    cases hb : isNumTok w with
+    | false => rfl
+    | true => exact absurd ((isNumTok_iff w).1 hb) (not_numTok_of_char w c hc h)
+
+/-- outside the quantifier, recorded: a NaN is printed as `nan`, which `to_numeric` (and the model)
+does not take for a number — a float column holding a NaN comes back as text -/
+theorem nan_cell_reads_as_text : isNumTok (cellText (.flt .nan)) = false := by decide
+
+/-- the printed number cells are cells the round trip is claimed for (no white space, no `#`, not a
+label, not `loop_`), so `star_roundtrip` applies to every table of typed cells -/
+theorem number_cells_are_cells (c : Cell) (h : CellWF c) : CellOk (cellText c) := cellText_ok c h
+
+/-- **A written column comes back numeric iff it was written from numbers** (`column_typing` applied
+to the printed cells): for a non-empty table of integers, floats and text cells, column `j` of the
+printed texts is typed numeric exactly when every cell of the column was an integer, a finite or
+infinite float, or a text that is itself a number token. -/
+theorem written_column_typing (rows : List (List Cell)) (j : Nat) (hj : ∀ r ∈ rows, j < r.length)
+    (hwf : ∀ r ∈ rows, ∀ c ∈ r, CellWF c) :
+    colNumeric isNumTok (rows.map (fun r => r.map cellText)) j = true ↔
+      rows ≠ [] ∧ ∀ r ∈ rows, ∀ c, r[j]? = some c → c.isNumber = true := typed_column rows j hj hwf
+
+/-- **Round trip of typed tables**: writing tables of integers, floats (any digit strings) and text
+cells and reading the file back returns the printed cells block by block, and every column of a
+non-empty block is typed numeric iff it was written from numbers. -/
+theorem typed_roundtrip (numberColumns : Bool) (bs : List TBlock) (h : ∀ b ∈ bs, TBlockOk b)
+    (he : EmptyOnlyLast (bs.map TBlock.texts)) :
+    readStar (printTyped numberColumns bs) = .ok (bs.map TBlock.texts) ∧
+    ∀ b ∈ bs, ∀ j < b.cols.length,
+      (colNumeric isNumTok b.texts.rows j = true ↔ b.rows ≠ [] ∧ ∀ r ∈ b.rows, ∀ c, r[j]? = some c → c.isNumber = true) := by
+  refine ⟨star_roundtrip numberColumns _ (fun b hb => ?_) he, ?_⟩
+  · obtain ⟨tb, htb, rfl⟩ := List.mem_map.1 hb
+    exact texts_ok tb (h tb htb)
+  · intro b hb j hj
+    obtain ⟨_, _, _, hr⟩ := h b hb
+    exact typed_column b.rows j (fun r hr' => by rw [(hr r hr').1]; exact hj) (fun r hr' => (hr r hr').2)
+
+/-! ### CRLF line ends -/
+
+/-- a CR at the end of a line is white space (or the last character of a comment, which `strip`
+removes): the tokens of the line do not change -/
+theorem cr_at_line_end (l : List Char) : lineToks (l ++ ['\r']) = lineToks l := lineToks_cr l
+
+/-- **CRLF normalisation**: for every text, the CRLF form (each `\n` replaced by `\r\n`) has the same
+tokens, hence is read into the same blocks, kinds and comments — whether or not the I/O layer
+translates line ends before the tokenizer sees them. (A CR *not* followed by a line break is outside
+the quantifier: the model treats it as white space, universal-newline I/O as a line break.) -/
+theorem crlf_normalisation (txt : List Char) :
+    tokenize (toCRLF txt) = tokenize txt ∧ readStar (toCRLF txt) = readStar txt ∧ readStarC (toCRLF txt) = readStarC txt := by
+  refine ⟨tokenize_crlf txt, ?_, ?_⟩
+  · unfold readStar; rw [tokenize_crlf]
+  · unfold readStarC; rw [tokenize_crlf]
+
+/-! ### comments, `data_id`, `get_specifier_id`, `get_frame_and_comments` -/
+
+/-- **Comments never change the parsed tables**: `Starfile.read` with the comment lists it collects
+returns, for every text, exactly the outcome of the token reader (the same blocks or the same error) -/
+theorem comments_never_change_tables (txt : List Char) : dropC (readStarC txt) = readStar txt := readStarC_tables txt
+
+/-- **The `comments` argument of `Starfile.write` never changes the tables read back**: whatever
+comment lines (without line breaks) are written in front of the blocks, `None` or a list per block. -/
+theorem written_comments_keep_tables (numberColumns : Bool) (coms : List (Option (List Comment))) (bs : List Block)
+    (txt : List Char) (hw : printStarC numberColumns coms bs = some txt) (hc : ComsOk coms)
+    (h : ∀ b ∈ bs, BlockOk b) (he : EmptyOnlyLast bs) : readStar txt = .ok bs :=
+  readStar_printStarC numberColumns coms bs txt hw hc h he
+
+/-- `comments=None` writes `printStar`; lists of different lengths are the `ValueError` -/
+theorem write_comments_argument (numberColumns : Bool) (bs : List Block) :
+    printStarC numberColumns (List.replicate bs.length none) bs = some (printStar numberColumns bs) ∧
+    ∀ coms : List (Option (List Comment)), coms.length ≠ bs.length → printStarC numberColumns coms bs = none := by
+  refine ⟨by simp [printStarC, printAllC_none], fun coms h => by simp [printStarC, h]⟩
+
+/-- **`data_id = i` returns the `i`-th block** of the full read (negative `i` counts from the end as
+Python does), an index out of range is the `IndexError`, and a text that does not parse fails the
+same way with or without `data_id` (the whole file is parsed first). -/
+theorem data_id_selects (txt : List Char) :
+    (∀ bs, readStarC txt = .ok bs → ∀ k (hk : k < bs.length),
+        readSel txt (k : Int) = .ok bs[k] ∧ readSel txt (-((bs.length - k : Nat) : Int)) = .ok bs[k]) ∧
+    (∀ bs, readStarC txt = .ok bs → ∀ i : Int, (i ≥ bs.length ∨ i < -(bs.length : Int)) → readSel txt i = .error .index) ∧
+    (∀ e, readStarC txt = .error e → ∀ i, readSel txt i = .error (.parse e)) := by
+  refine ⟨?_, ?_, ?_⟩
+  · intro bs hb k hk
+    unfold readSel
+    simp only [hb]
+    constructor
+    · rw [pyIndex_nonneg _ _ hk]; simp [hk]
+    · rw [pyIndex_neg _ _ (by omega) (by omega)]
+      have : bs.length - (bs.length - k) = k := by omega
+      simp [this, hk]
+  · intro bs hb i hi
+    unfold readSel
+    simp only [hb]
+    have : pyIndex bs.length i = none := by
+      unfold pyIndex
+      rcases hi with hi | hi
+      · have h0 : 0 ≤ i := by omega
+        have : ¬ i.toNat < bs.length := by omega
+        simp [h0, this]
+      · have h0 : ¬ 0 ≤ i := by omega
+        have : ¬ (-i).toNat ≤ bs.length := by omega
+        simp [h0, this]
+    rw [this]
+  · intro e he i
+    unfold readSel
+    simp [he]
+
+/-- **The comments of any well laid-out STAR text**: besides its blocks (`read_any_layout`) the
+reader returns, per block, the stripped comments of the comment lines before the block, on its name
+line, between the name and `loop_` and after the labels, in that order; comments on label lines are
+not recorded; comments after the last block are dropped unless that block has no rows. -/
+theorem read_any_layout_comments (d : Doc) (h : d.Ok) :
+    readStarC d.text = .ok ((d.blocks.map BlockLayout.block).zip (docComs d.trailing d.blocks)) := readStarC_doc d h
+
+/-- **Written comments read back**: reading the text `Starfile.write` produces with a `comments`
+argument returns every table together with the comments written for it, each stripped of leading and
+trailing white space, in order (`None` reads back as no comments). -/
+theorem written_comments_read_back (numberColumns : Bool) (coms : List (Option (List Comment))) (bs : List Block)
+    (txt : List Char) (hw : printStarC numberColumns coms bs = some txt) (hc : ComsOk coms)
+    (h : ∀ b ∈ bs, BlockOk b) (he : EmptyOnlyLast bs) : readStarC txt = .ok (bs.zip (coms.map comRead)) :=
+  readStarC_printStarC numberColumns coms bs txt hw hc h he
+
+/-- `data_id` on a written file: block `k` of the tables handed to `Starfile.write`, with its comments -/
+theorem written_block_by_data_id (numberColumns : Bool) (coms : List (Option (List Comment))) (bs : List Block)
+    (txt : List Char) (hw : printStarC numberColumns coms bs = some txt) (hc : ComsOk coms)
+    (h : ∀ b ∈ bs, BlockOk b) (he : EmptyOnlyLast bs) (k : Nat) (hk : k < bs.length) (hk' : k < coms.length) :
+    readSel txt (k : Int) = .ok (bs[k], comRead coms[k]) := by
+  have h1 := readStarC_printStarC numberColumns coms bs txt hw hc h he
+  have hlen : k < (bs.zip (coms.map comRead)).length := by simp [List.length_zip]; omega
+  rw [((data_id_selects txt).1 _ h1 k hlen).1]
+  simp [List.getElem_zip]
+
+/-- **`get_specifier_id`** returns the first index holding the specifier, `None` iff there is none -/
+theorem specifier_id_first (names : List Word) (s : Word) :
+    (∀ k, specifierId names s = some k ↔ names[k]? = some s ∧ ∀ j < k, names[j]? ≠ some s) ∧
+    (specifierId names s = none ↔ s ∉ names) :=
+  ⟨specifierId_some names s, specifierId_none names s⟩
+
+/-- **`get_frame_and_comments`** returns the first block of the full read whose name is the
+specifier, raises the `ValueError` iff no block has that name, and fails like the reader otherwise -/
+theorem get_frame_and_comments_spec (txt : List Char) (s : Word) :
+    (∀ bs, readStarC txt = .ok bs → ∀ k, specifierId (bs.map (·.1.name)) s = some k →
+        ∃ hk : k < bs.length, getFrameAndComments txt s = .ok bs[k] ∧ bs[k].1.name = s) ∧
+    (∀ bs, readStarC txt = .ok bs → s ∉ bs.map (·.1.name) → getFrameAndComments txt s = .error .noEntry) ∧
+    (∀ e, readStarC txt = .error e → getFrameAndComments txt s = .error (.parse e)) := by
+  refine ⟨?_, ?_, ?_⟩
+  · intro bs hb k hk
+    have h1 := ((specifierId_some _ s k).1 hk).1
+    have hlt : k < bs.length := by
+      have := (List.getElem?_eq_some_iff.1 h1).1
+      simpa using this
+    refine ⟨hlt, ?_, ?_⟩
+    · unfold getFrameAndComments
+      simp [hb, hk, hlt]
+    · simpa [List.getElem?_map, List.getElem?_eq_getElem hlt] using h1
+  · intro bs hb hs
+    unfold getFrameAndComments
+    simp [hb, (specifierId_none _ s).2 hs]
+  · intro e he
+    unfold getFrameAndComments
+    simp [he]
+
 /-- **Witness for the open finding C02-K1** (and the reason `loop_` is excluded in `BlockOk`): a text
 cell equal to the reserved word is written verbatim and the reader then fails. -/
 theorem loop_cell_breaks_roundtrip :
@@ -128,5 +332,52 @@ example : readStar exDoc.text = .ok [{ name := "data_".toList, cols := ["a".toLi
 example : blockKinds isNumTok { name := [], cols := ["a".toList, "b".toList, "c".toList], rows := [["1.5".toList, "x".toList, "1e5".toList], ["-2".toList, "3".toList, ".5".toList]] } = [true, false, true] := by decide
 example : tokenizeLine "  1.0   \tx # c".toList = (["1.0".toList, "x".toList], some " c".toList) := by decide
 
+/-! non-vacuity of the numeric, CRLF and comment theorems -/
+abbrev exTyped : List TBlock :=
+  [{ name := "data_particles".toList, cols := ["rlnX".toList, "rlnName".toList, "n".toList],
+     rows := [[.flt (.fin false "15".toList 1), .txt "mic_1.mrc".toList, .int (-3)],
+              [.flt (.fin true "1".toList 17), .txt "12".toList, .int 40]] }]
+example : (∀ b ∈ exTyped, TBlockOk b) ∧ EmptyOnlyLast (exTyped.map TBlock.texts) := by
+  refine ⟨?_, trivial⟩
+  intro b hb
+  simp only [exTyped, List.mem_singleton] at hb
+  subst hb
+  refine ⟨by decide, by decide, by decide, ?_⟩
+  intro r hr
+  simp only [List.mem_cons, List.mem_nil_iff, or_false] at hr
+  rcases hr with rfl | rfl
+  · refine ⟨rfl, ?_⟩
+    intro c hc
+    simp only [List.mem_cons, List.mem_nil_iff, or_false] at hc
+    rcases hc with rfl | rfl | rfl
+    · exact ⟨by decide, by decide⟩
+    · exact (by decide : CellOk "mic_1.mrc".toList)
+    · trivial
+  · refine ⟨rfl, ?_⟩
+    intro c hc
+    simp only [List.mem_cons, List.mem_nil_iff, or_false] at hc
+    rcases hc with rfl | rfl | rfl
+    · exact ⟨by decide, by decide⟩
+    · exact (by decide : CellOk "12".toList)
+    · trivial
+set_option maxRecDepth 8000 in
+example : printTyped true exTyped = "\ndata_particles\n\nloop_\n_rlnX #1\n_rlnName #2\n_n #3\n1.5       \tmic_1.mrc \t-3        \n-1e+16    \t12        \t40        \n\n".toList := by decide
+example : (exTyped.map TBlock.texts).map (blockKinds isNumTok) = [[true, false, true]] := by decide
+example : [floatRepr false "1".toList 16, floatRepr false "1".toList (-3), floatRepr false "1".toList (-4), floatRepr true "5".toList (-323),
+           floatRepr false "0".toList 1, floatRepr false "123456".toList 3, floatRepr false "33".toList 101, intStr (-12)]
+    = ["1000000000000000.0".toList, "0.0001".toList, "1e-05".toList, "-5e-324".toList, "0.0".toList, "123.456".toList, "3.3e+100".toList, "-12".toList] := by decide
+example : ["inf", "-Infinity", "+iNf", "1e5", ".5", "7.", "-0.0"].map (fun s => isNumTok s.toList) = [true, true, true, true, true, true, true] ∧
+          ["nan", "infinit", "1e", ".", "+", "1_0", "0x10", "--1", "e5", "1.2.3"].map (fun s => isNumTok s.toList) = List.replicate 10 false := by decide
+example : toCRLF "# c \ndata_\nloop_\n_a #1\n1\n".toList = "# c \r\ndata_\r\nloop_\r\n_a #1\r\n1\r\n".toList := by decide
+example : readStarC "# c \r\ndata_ # d\r\nloop_\r\n_a #1\r\n# e\r\n1\r\n#z".toList
+    = .ok [({ name := "data_".toList, cols := ["a".toList], rows := [["1".toList]] }, ["c".toList, "d".toList, "e".toList])] := by decide
+set_option maxRecDepth 8000 in
+example : printStarC true [some [" made by hand ".toList, "x".toList], none] exBlocks
+    = some "\n#  made by hand \n# x\n\ndata_optics\n\nloop_\n_rlnVoltage #1\n_rlnName #2\n300.0     \topticsGroup1\n\n\ndata_stopgap_motl\n\nloop_\n_x\n\n\n".toList := by decide
+example : ComsOk [some [" made by hand ".toList, "x".toList], none] := by decide
+example : comRead (some [" made by hand ".toList, "x".toList]) = ["made by hand".toList, "x".toList] := by decide
+example : readSel (printStar true exBlocks) (-1) = .ok (exBlocks[1], []) ∧ readSel (printStar true exBlocks) 2 = .error .index := by decide
+example : getFrameAndComments (printStar true exBlocks) "data_stopgap_motl".toList = .ok (exBlocks[1], []) ∧
+          getFrameAndComments (printStar true exBlocks) "data_x".toList = .error .noEntry := by decide
 
 end CryoCat.C02
